@@ -389,6 +389,11 @@ def rule_R5(ctx, f):
                 caps = [peel(x) for x in a[3]]
                 if cl and common in caps and cl.calls_to(["HashMap::contains_key", "HashSet::contains"]):
                     clash_call = c
+                elif cl and cl.calls_to(["HashMap::contains_key", "HashSet::contains"]):
+                    # `let common = self.labels.as_ref()?;` in an Option-returning helper expanded here: the payload of self.labels all the same
+                    from pvrules import seqeval as _sq
+                    if any(peel(_sq._unwrap_payload(x)) == SELF_FIELD("labels") for x in a[3]):
+                        clash_call = c
         for c in r.calls_to(["HashMap::contains_key"]):
             if peel(c.args[0]) == common:
                 e = elem_of(peel(c.args[1], transparent=["Deref::deref", "LabelPair::name", "String::as_str", "AsRef::as_ref"]))
@@ -416,7 +421,16 @@ def rule_R5(ctx, f):
             res = clash_call.result_term()
             for bi in r.reach(clash_call.bb):
                 si = r.switch_info(bi)
-                if si and si[0][0] == "discr" and peel(si[0][1], transparent=[]) == res:
+                def _is_res(t_):
+                    t_ = peel(t_, transparent=[])
+                    if t_ == res:
+                        return True
+                    # the result place of the expanded helper: the scan's result, or None where the registry has no common labels
+                    if isinstance(t_, tuple) and len(t_) == 2 and t_[0] == "var":
+                        al = r.var_alts(t_[1])
+                        return res in al and all(x == res or is_call(peel(x, transparent=[]), "FromResidual::from_residual") or (x[0] == "agg" and x[2].endswith("Option::None")) for x in al)
+                    return False
+                if si and si[0][0] == "discr" and _is_res(si[0][1]):
                     some_t = [t for v, t in si[1] if v == 1]
                     rej = bool(some_t) and rejecting(r, some_t[0])
                     break
@@ -454,6 +468,10 @@ def rule_R5(ctx, f):
                         si2 = r.switch_info(bi)
                         if si2 and si2[0] == ("discr", SELF_FIELD("labels")):
                             guard_edges += [(bi, t) for v, t in si2[1] if v == 0] + ([(bi, si2[2])] if not any(v == 0 for v, t in si2[1]) else [])
+                        elif si2 and si2[0][0] == "discr" and is_call(peel(si2[0][1], transparent=[]), "Try::branch") \
+                                and peel(peel(si2[0][1], transparent=[])[2][0], transparent=["Option::as_ref", "Option::as_deref"]) == SELF_FIELD("labels"):
+                            # `self.labels.as_ref()?` in an Option-returning helper: the Break arm is "no common labels"
+                            guard_edges += [(bi, t) for v, t in si2[1] if v == 1] + ([(bi, si2[2])] if not any(v == 1 for v, t in si2[1]) else [])
                     okp = n.bb not in r.reach(body_entry, avoid_blocks=[clash_call.bb], avoid_edges=guard_edges)
                     ctx.ob(rid, "register|clash-check-every-descriptor", okp, "with common labels every descriptor must pass the clash check", site=clash_call.span)
 
